@@ -579,10 +579,13 @@ fn pool_worker_loop(pool: Arc<ThreadPool>, timeout: Option<Duration>) {
                     .task_wakeup
                     .wait_timeout(records, time_to_deadline)
                     .unwrap();
-                if wait_result.timed_out() {
+                if wait_result.timed_out() && records.queue.is_empty() {
                     records.available_workers -= 1;
                     return;
                 } else {
+                    // Either we were notified, or the wait timed out just
+                    // as a task was handed to us (the submitter counted us
+                    // as available); the task must not be left stranded.
                     records
                 }
             } else {
